@@ -31,13 +31,27 @@ def impl(c):
         out["script"] = [script.get_firings(x) for x in names]; out["final"] = common.div_to_list(G, alg.divisor)
         out["replay"] = common.div_to_list(G, CFLaplacian(d.graph).apply(d, script))
     else: out["script_none"] = script is None
+    # history on one solver object: hand-made borrowing moves first, then play() - repeated when the budget ran out; whenever it reports success the script
+    # must turn the divisor the solver was built with into the solver's final, effective divisor
+    alg2 = GreedyAlgorithm(d.graph, d); n = G["n"]; hist = []
+    for _ in range(rng.randint(0, 3)): alg2.borrowing_move(names[rng.randrange(n)])
+    for _ in range(3):
+        ok2, s2 = alg2.play()
+        if ok2:
+            fin = common.div_to_list(G, alg2.divisor); rep = common.div_to_list(G, CFLaplacian(d.graph).apply(d, s2))
+            hist.append(["ok", fin, rep]); break
+        hist.append(["fail", s2 is None])
+    out["session"] = hist; out["pure2"] = before == (common.div_to_list(G, d), d.get_total_degree())
     return out
 def model_lines(c):
     n = c["G"]["n"]; return [["greedy"] + common.enc_graph(c["G"]) + common.enc_list(list(range(n))) + common.enc_list(c["D"])]
 def judge(c, r, mo):
     if "exc" in r: return [{"what": "implementation raised %s: %s" % (r["exc"], r.get("msg"))}]
     o = r["ok"]; out = []
-    if not o["pure"] or o["alias"]: out.append({"what": "the solver modified (or aliased) the caller's divisor"})
+    if not o["pure"] or o["alias"] or not o.get("pure2", True): out.append({"what": "the solver modified (or aliased) the caller's divisor"})
+    for h in o.get("session", []):
+        if h[0] == "ok" and (h[1] != h[2] or min(h[1]) < 0): out.append({"what": "after hand-made moves / repeated play() on one solver: success with final divisor %s but the returned script applied to the original divisor gives %s" % (h[1], h[2])})
+        if h[0] == "fail" and not h[1]: out.append({"what": "play() reported failure together with a script"})
     if mo[0][0] == "fail":
         if o["ok"]: out.append({"what": "solver reports success on %s; the model exhausts the budget of 10*|V| moves" % c["D"]})
     else:
